@@ -71,6 +71,29 @@ func c37Upload(t *testing.T, st storage.Putter, data []byte) boson.Address {
 	return a
 }
 
+// c37Hangs: inputs on which joiner.subtrieSection never terminates (its
+// `branchSize *= branching` loop overflows to 0): an intermediate chunk (span >
+// payload length) with fewer than one full reference, or with a positive span
+// above ChunkSize*Branches^3. These make GetChunkHashes spin forever - a hang, not a
+// panic; there is no wall-clock oracle, so they are excluded (unless
+// VERIF_C37_DEEP=1, used with proposed_fix_3.patch) and reported in FINDINGS.md
+// as an observation.
+func c37Hangs(span uint64, payloadLen int) bool {
+	s := int64(span)
+	if s <= int64(payloadLen) {
+		return false // treated as a leaf
+	}
+	if payloadLen < 32 {
+		return true
+	}
+	limit := int64(boson.ChunkSize)
+	for i := 0; i < 3; i++ {
+		limit *= int64(boson.Branches)
+	}
+	refs := int64(payloadLen / 32)
+	return s-limit*(refs-1) > limit
+}
+
 func c37Cases(t *testing.T) []c37Pyramid {
 	C := uint64(boson.ChunkSize)
 	var cs []c37Pyramid
@@ -80,6 +103,9 @@ func c37Cases(t *testing.T) []c37Pyramid {
 	// --- crafted plain-file roots
 	for _, span := range []uint64{0, 1, 3, 4, 31, 32, 33, 64, C, C + 1, 2 * C, C * uint64(boson.Branches), C*uint64(boson.Branches) + 1, 1 << 31, 1 << 32, 1<<63 - 1, 1 << 63, ^uint64(0)} {
 		for _, pl := range []int{0, 1, 3, 31, 32, 33, 63, 64, 65, 96} {
+			if c37Hangs(span, pl) && mc.EnvInt("VERIF_C37_DEEP", 0) == 0 {
+				continue
+			}
 			payload := c37Pat(pl, 3)
 			// references point at a present leaf where they fit
 			for o := 0; o+32 <= pl; o += 32 {
@@ -91,6 +117,17 @@ func c37Cases(t *testing.T) []c37Pyramid {
 	// two-level tree with a malformed intermediate chunk
 	for _, ipl := range []int{0, 1, 31, 33, 64, 65} {
 		for _, ispan := range []uint64{0, 5, C, C + 1, 2 * C, 1 << 62, ^uint64(0)} {
+			if c37Hangs(ispan, ipl) && mc.EnvInt("VERIF_C37_DEEP", 0) == 0 {
+				continue
+			}
+			// A malformed chunk *below* the root is read by an errgroup goroutine of
+			// joiner.readAtOffset; its panic (slice bounds out of range, the same
+			// site as the root-level case) cannot be recovered by anybody and kills
+			// the process - including this harness. These cases are therefore only
+			// enumerated with VERIF_C37_DEEP=1 (used to validate the proposed fix).
+			if ipl%32 != 0 && ipl > 32 && int64(ispan) > int64(ipl) && mc.EnvInt("VERIF_C37_DEEP", 0) == 0 {
+				continue
+			}
 			ik, id := c37Chunk(ispan, append(append([]byte{}, leafRef...), c37Pat(ipl, 9)...)[:ipl])
 			rootPayload := append(append([]byte{}, boson.MustParseHexAddress(ik).Bytes()...), leafRef...)
 			extra := map[string][]byte{ik: id, leafK: leafD}
@@ -148,6 +185,9 @@ func c37Cases(t *testing.T) []c37Pyramid {
 		mutRoot(fmt.Sprintf("manifest-root-prefix-%d-of-%d(span=len)", k, len(node)), uint64(k), node[:k])
 	}
 	for _, k := range []int{0, 1, 31, 32, 63, 64, 65, len(node) / 2, len(node) - 1} {
+		if c37Hangs(uint64(len(node)), k) && mc.EnvInt("VERIF_C37_DEEP", 0) == 0 {
+			continue
+		}
 		mutRoot(fmt.Sprintf("manifest-root-prefix-%d(span kept)", k), uint64(len(node)), node[:k])
 	}
 	for pos := 0; pos < len(node); pos++ {
